@@ -19,6 +19,7 @@ type solverSpec struct {
 var (
 	z3new = solverSpec{name: "z3-5.1.0", cmd: []string{"z3-new", "-in", "-smt2"}}
 	z3em  = solverSpec{name: "z3-5.1.0/ematching", cmd: []string{"z3-new", "-in", "-smt2", "smt.mbqi=false", "smt.auto_config=false"}}
+	z3mb  = solverSpec{name: "z3-5.1.0/mbqi", cmd: []string{"z3-new", "-in", "-smt2", "smt.ematching=false"}}
 	z3old = solverSpec{name: "z3-4.8.12", cmd: []string{"/usr/bin/z3", "-in", "-smt2"}}
 	cvc5  = solverSpec{name: "cvc5-1.0", cmd: []string{"cvc5", "--lang", "smt2", "--strings-exp", "--incremental"}, cvc: true}
 )
@@ -57,7 +58,11 @@ func (u *Unit) queryV(ob *Obligation, forCVC bool, withModel bool, macroAt bool)
 		c := u.cmds[i]
 		switch c.kind {
 		case cmdDecl, cmdAssume:
-			b.WriteString(c.text)
+			if macroAt && c.alt != "" {
+				b.WriteString(c.alt)
+			} else {
+				b.WriteString(c.text)
+			}
 			b.WriteByte('\n')
 		case cmdOblig:
 			if c.ob.Canary || ob.Canary {
@@ -65,6 +70,10 @@ func (u *Unit) queryV(ob *Obligation, forCVC bool, withModel bool, macroAt bool)
 			}
 			// obligations about end states (returns, back edges, loop entry) cannot help later program points
 			if c.ob.Kind == "ensures" || c.ob.Kind == "inv-step" || c.ob.Kind == "inv-init" {
+				continue
+			}
+			// quantified registry invariants are proved where they stand; as assumptions they only cost model finding
+			if c.ob.Kind == "mapinv" && strings.HasPrefix(c.ob.Cond, "(forall") {
 				continue
 			}
 			fmt.Fprintf(&b, "(assert %s)\n", implies(c.ob.Guard, c.ob.Cond))
@@ -167,12 +176,14 @@ func (u *Unit) solve(ob *Obligation, tier string) {
 		r = r2
 	}
 	if r.result != "unsat" && r.result != "sat" {
-		// race the other two
+		// race the others; z3 without E-matching (pure model-based instantiation) finds models of failing
+		// obligations in quantified contexts where the default configuration keeps instantiating
 		var wg sync.WaitGroup
-		rs := make([]solveResult, 2)
-		wg.Add(2)
+		rs := make([]solveResult, 3)
+		wg.Add(3)
 		go func() { defer wg.Done(); rs[0] = runSolver(z3old, q, t2) }()
 		go func() { defer wg.Done(); rs[1] = runSolver(cvc5, u.query(ob, true, false), t2) }()
+		go func() { defer wg.Done(); rs[2] = runSolver(z3mb, q, t2) }()
 		wg.Wait()
 		for _, x := range rs {
 			if x.ms > 0 {
@@ -190,6 +201,9 @@ func (u *Unit) solve(ob *Obligation, tier string) {
 		// fetch a model with values of the unit's inputs
 		mq := u.queryV(ob, false, true, true)
 		mr := runSolver(z3new, mq, t1)
+		if mr.result != "sat" && r.solver == z3mb.name {
+			mr = runSolver(z3mb, u.query(ob, false, true), t1)
+		}
 		if mr.result == "sat" {
 			ob.Model = mr.out
 		} else {
